@@ -95,10 +95,13 @@ def handleRefp (f h opts desc trace : String) : String :=
   | some J =>
     match Model.RefVerifier.parseDesc desc, optsOf opts, traceOf trace with
     | some d, some o, some t =>
-      if d.aux.isSome then "-"
+      if d.lagrange then "-"
       else if t.length ≠ d.air.width ∨ t.any (fun c => c.length ≠ d.air.n) ∨ t.any (fun c => c.any (· ≥ J.I.M)) then "bad-op"
       else
-        match Model.RefProver.refProve J d t o with
+        match Model.RefProver.parseAuxGens desc with
+        | none => "-"
+        | some gens =>
+        match Model.RefProver.refProve J d t o gens with
         | .ok bs =>
           -- the executable pair end to end: the reference verifier on the reference prover's bytes
           let v := Model.RefVerifier.refVerify J d (Model.RefProver.refPubInputs J d t) (.optionSet [o]) bs
